@@ -95,6 +95,16 @@ def gen_sentences(tier):
                                                             "silent": "silent" in act.lower(), "flags": fe}
         yield f"{t} UID EXPUNGE {ss}", {"command": "expunge", "uid": True, "msg_set": se}
     yield f"{t} STORE 1 +FLAGS \\Seen", {"command": "store", "uid": False, "msg_set": [1], "store_action": "add", "silent": False, "flags": ["\\Seen"]}
+    for U in ("", "UID "):  # store-att-flags = ... SP (flag-list / (flag *(SP flag)))
+        yield f"{t} {U}STORE 2 -FLAGS \\Seen \\Deleted", {"command": "store", "uid": bool(U), "msg_set": [2], "store_action": "remove", "silent": False, "flags": ["\\Seen", "\\Deleted"]}
+        yield f"{t} {U}STORE 1:2 FLAGS.SILENT kw $Fwd \\Draft", {"command": "store", "uid": bool(U), "msg_set": [(1, 2)], "store_action": "replace", "silent": True,
+                                                                "flags": ["kw", "$Fwd", "\\Draft"]}
+    # "}" is not an atom-special
+    for c in ("SELECT", "CREATE", "DELETE"):
+        yield f"{t} {c} a}}b", {"command": c.lower(), "mailbox_name": "a}b"}
+    yield f"t}}1 NOOP", {"command": "noop"}
+    yield f"{t} LIST x}} y}}%", {"command": "list", "ref": "x}", "list_mailbox": "y}%"}
+    yield f"{t} STORE 1 +FLAGS (k}}w)", {"command": "store", "uid": False, "msg_set": [1], "store_action": "add", "silent": False, "flags": ["k}w"]}
     # fetch atts
     FA = [
         ("ENVELOPE", ("envelope", None, None, False)), ("FLAGS", ("flags", None, None, False)), ("INTERNALDATE", ("internaldate", None, None, False)),
@@ -343,6 +353,13 @@ def work_grammar(unit):
         n += 1
         st, cmd, err = parse_one(s)
         kinds.add((exp["command"], st))
+        # the independent recogniser must read the generated sentence the way the generator meant it (this validates the oracle
+        # used for the mutants; a disagreement is a bug in the machinery and is reported as such, not as a violation)
+        from ..refmodel.cmdgrammar import recognise
+
+        w = recognise(s)
+        if w[0] != "ok" or compare({k: v for k, v in exp.items() if k not in ("message_body", "command")}, w[1]):
+            raise AssertionError(f"recogniser/generator disagree on {s!r}: {w!r} vs {exp!r}")
         if st != "ok":
             fails.append(Failure(PROP, "C08.valid-sentence-rejected" if st == "bad" else "C08.parser-crash",
                                  {"command": exp["command"], "exc": type(err).__name__, "hint": _hint(s)}, {"driver": "c08", "sentence": s, "expected": _j(exp)},
@@ -408,10 +425,63 @@ def mutations(s: str, double=False):
                     yield t
 
 
+def diff_one(m, st, cmd, err, driver="c08-mut"):
+    """Differential acceptance of one sentence against the independent recogniser (vf/refmodel/cmdgrammar.py)."""
+    from ..refmodel.cmdgrammar import classify_overacceptance, recognise
+
+    fails = []
+    want = recognise(m)
+    rp = {"driver": driver, "sentence": m}
+    if st == "crash":
+        fails.append(Failure(PROP, "C08.parser-crash", {"exc": type(err).__name__, "command": (cmd.command or "?")[:12]}, rp, "BadCommand or a parse", repr(err)[:200]))
+    elif st == "ok" and cmd.input != "":
+        if want[0] == "ok":
+            # a sentence of the language of which only a prefix was understood: the run loop ignores the rest
+            fails.append(Failure(PROP, "C08.valid-sentence-cut-short", {"command": cmd.command, "left_starts": _shape(cmd.input[:2])}, rp, _j(want[1]),
+                                 f"parsed as {_j(meaning(cmd))}, left over {cmd.input[:40]!r}"))
+        else:
+            fails.append(Failure(PROP, "C08.input-left-unparsed", {"command": cmd.command, "hint": "mutant"}, rp, "", cmd.input[:60]))
+    elif st == "ok":
+        if want[0] == "bad":
+            cls = classify_overacceptance(m) or "unexplained"
+            fails.append(Failure(PROP, "C08.ill-formed-accepted", {"class": cls, "command": cmd.command}, rp, f"BadCommand ({want[1]})",
+                                 f"parsed as {_j(meaning(cmd))}"))
+        elif want[0] == "ok":
+            exp = dict(want[1])
+            got = meaning(cmd)
+            if "message_raw" in exp:
+                from email import message_from_bytes, policy
+
+                try:
+                    exp["message_body"] = message_from_bytes(exp.pop("message_raw").encode("latin-1"), policy=policy.SMTP).get_payload()
+                except Exception:  # the stdlib could not parse the octets: nothing to compare
+                    exp.pop("message_raw", None)
+            d = compare(exp, got)
+            if d:
+                det = {"command": exp["command"], "field": d[0][0], "hint": "mutant"}
+                if d[0][0] == "date" and d[0][1] and d[0][1][0] < 100:
+                    det["year_below_100"] = True
+                fails.append(Failure(PROP, "C08.meaning", det, rp, _j(d[0][1]), _j(d[0][2])))
+    elif st == "bad" and want[0] == "ok":
+        fails.append(Failure(PROP, "C08.valid-sentence-rejected", {"command": want[1]["command"], "exc": type(err).__name__, "hint": "mutant", "stopped_at": _shape(cmd.input[:1])},
+                             rp, "accepted", repr(err)[:200]))
+    return fails, want[0]
+
+
+def _shape(s: str) -> str:
+    """A coarse shape of a piece of input for failure signatures (letters -> a, digits -> 9, runs collapsed)."""
+    out = []
+    for c in s[:24]:
+        k = "a" if c.isalpha() else "9" if c.isdigit() else c
+        if not out or out[-1] != k:
+            out.append(k)
+    return "".join(out)
+
+
 def work_total(unit):
     fails = []
     n = acc = 0
-    excs = set()
+    verdicts = {}
     for s, double in unit:
         muts = mutations(s)
         if double:
@@ -420,16 +490,12 @@ def work_total(unit):
         for m in muts:
             n += 1
             st, cmd, err = parse_one(m)
-            if st == "crash":
-                excs.add(type(err).__name__)
-                fails.append(Failure(PROP, "C08.parser-crash", {"exc": type(err).__name__, "command": (cmd.command or "?")[:12]},
-                                     {"driver": "c08-mut", "sentence": m}, "BadCommand or a parse", repr(err)[:200]))
-            elif st == "ok":
+            f, want = diff_one(m, st, cmd, err)
+            fails.extend(f)
+            verdicts[(want, st)] = verdicts.get((want, st), 0) + 1
+            if st == "ok":
                 acc += 1
-                if cmd.input != "":
-                    fails.append(Failure(PROP, "C08.input-left-unparsed", {"command": cmd.command, "hint": "mutant"},
-                                         {"driver": "c08-mut", "sentence": m}, "", cmd.input[:60]))
-    return fails, n, acc
+    return fails, n, (acc, verdicts)
 
 
 def work_runloop(unit):
@@ -555,7 +621,7 @@ def core_sentences(tier):
     import hashlib
 
     allg = [s for s, _ in gen_sentences("quick")]
-    step = 3 if tier == "quick" else 1
+    step = 1  # every generated quick-grammar sentence is a core sentence (the differential pass costs ~15 s on 16 cores)
     core = [s for i, s in enumerate(allg) if i % step == 0]
     return core
 
@@ -582,10 +648,13 @@ def run(tier, seed, jobs) -> Result:
     for i in range(0, len(core), 6):
         tunits.append([(s, tier != "quick" and len(s) <= 24) for s in core[i : i + 6]])
     nm = nacc = 0
-    for f, n, a in pmap(work_total, seeded_order(tunits, seed), jobs):
+    verdicts = {}
+    for f, n, (a, v) in pmap(work_total, seeded_order(tunits, seed), jobs):
         res.failures.extend(f)
         nm += n
         nacc += a
+        for k, c in v.items():
+            verdicts[k] = verdicts.get(k, 0) + c
     rj = list(REJECTS)
     for s in core[:: 7]:
         rj.extend([s[: len(s) // 2], s + " )", s.replace(" ", "  ", 1)])
@@ -593,7 +662,9 @@ def run(tier, seed, jobs) -> Result:
     for r in REJECTS:
         st, cmd, err = parse_one(r)
         if st == "ok":
-            cls = "trailing-input" if cmd.input != "" else "lenient-syntax"
+            from ..refmodel.cmdgrammar import classify_overacceptance
+
+            cls = "trailing-input" if cmd.input != "" else (classify_overacceptance(r) or "lenient-syntax")
             res.failures.append(Failure(PROP, "C08.ill-formed-accepted", {"class": cls, "command": cmd.command},
                                         {"driver": "c08-rej", "sentence": r}, "BadCommand", f"parsed as {cmd.command}, left over {cmd.input[:20]!r}"))
     rj = [r for r in rj if parse_one(r)[0] != "ok"]
@@ -620,6 +691,7 @@ def run(tier, seed, jobs) -> Result:
         "grammar_sentences": ng,
         "mutants": nm,
         "mutants_accepted": nacc,
+        "mutant_verdicts_recogniser_x_parser": {f"{a}/{b}": c for (a, b), c in sorted(verdicts.items())},
         "core_sentences": len(core),
         "runloop_rejects": nr,
         "command_outcomes": len(kinds),
@@ -629,8 +701,9 @@ def run(tier, seed, jobs) -> Result:
     res.assumptions = ["the grammar is bounded (see gen_sentences): search nesting depth %d, 13 mailbox names x 4 astring forms, 8 sequence sets, 25 fetch items" % (2 if tier == "quick" else 3),
                        "sequence sets: all %d strings over %r of length <=%d in 9 message-set positions are decided by an independent recogniser of the RFC 3501 "
                        "grammar (well-formed -> accepted with exactly that meaning; otherwise rejected)" % (len(allsets), SET_ALPHABET, 5 if tier == "quick" else 6),
-                       "elsewhere differential acceptance against an independent recogniser is limited to: every generated sentence must be accepted with the generated meaning, "
-                       "nothing may be left unparsed, and a fixed list of ill-formed sentences must be rejected; mutants are checked for totality only",
+                       "differential acceptance: every truncation / edit of a core sentence is also read by an independent recogniser of the RFC 3501 command grammar "
+                       "(vf/refmodel/cmdgrammar.py): in the language <=> accepted, with the same meaning; octets >= 0x80 are read as ordinary atom / text characters; "
+                       "dates and date-times that are syntactically right but denote nothing (31-Feb) may be answered either way",
                        "search keys are compared in a canonical form that identifies FROM x with HEADER FROM x, NEW with (RECENT UNSEEN), UNx with NOT x"]
     return res
 
@@ -650,12 +723,7 @@ def replay(rec):
         return [f for f in work_sets([rp["set"]])[0] if f.replay["sentence"] == rp["sentence"]]
     if rp["driver"] == "c08-mut":
         st, cmd, err = parse_one(rp["sentence"])
-        out = []
-        if st == "crash":
-            out.append(Failure(PROP, "C08.parser-crash", {}, rp, None, repr(err)))
-        elif st == "ok" and cmd.input != "":
-            out.append(Failure(PROP, "C08.input-left-unparsed", {}, rp, "", cmd.input))
-        return out
+        return diff_one(rp["sentence"], st, cmd, err)[0]
     if rp["driver"] == "c08-rej":
         st, cmd, err = parse_one(rp["sentence"])
         return [Failure(PROP, "C08.ill-formed-accepted", {}, rp, None, None)] if st == "ok" else []
